@@ -32,9 +32,13 @@ type c12ExpCase struct {
 	Deps    bool       `json:"deps"` // the expiring items have deleteWith dependents
 	Clients [][]string `json:"clients"`
 	LeadMs  int        `json:"leadMs"` // the clients start this long before the instant
+	// StoreDelayUs makes every storage write (also the removals of a purge)
+	// take this long inside the state's locked section, so that readers
+	// and writers queue up behind a purge in progress.
+	StoreDelayUs int `json:"storeDelayUs,omitempty"`
 }
 
-var c12ExpOps = []string{"getF1", "getF2", "getR1", "getDep", "search", "list", "event", "event", "getKeep", "addOther", "getF3", "getF3", "rewriteF3"}
+var c12ExpOps = []string{"getF1", "getF2", "getR1", "getDep", "search", "list", "event", "event", "getKeep", "addOther", "getF3", "getF3", "getF3", "rewriteF3", "rewriteF3"}
 
 func genC12Exp(t *rapid.T) c12ExpCase {
 	var c c12ExpCase
@@ -51,6 +55,7 @@ func genC12Exp(t *rapid.T) c12ExpCase {
 		c.Clients = append(c.Clients, ops)
 	}
 	c.LeadMs = rapid.SampledFrom([]int{5, 20, 40}).Draw(t, "lead")
+	c.StoreDelayUs = rapid.SampledFrom([]int{0, 200, 500}).Draw(t, "storeDelayUs")
 	return c
 }
 
@@ -60,7 +65,12 @@ func runC12Exp(c c12ExpCase) *vlib.Outcome {
 		o.Discard = true
 		return o
 	}
-	w := newWorld(c.Kind, nil, o)
+	var store core.Storage
+	if c.StoreDelayUs > 0 && c.StoreDelayUs <= 10000 {
+		mem, _ := core.NewMemStorage(newCtx())
+		store = &c12SlowStore{mem, time.Duration(c.StoreDelayUs) * time.Microsecond}
+	}
+	w := newWorld(c.Kind, store, o)
 	if c.Hooks {
 		w.withCronHooks()
 	}
@@ -144,6 +154,7 @@ func runC12Exp(c c12ExpCase) *vlib.Outcome {
 	// expiry) by a client: from the moment such a write has returned, the
 	// item is there
 	var rewritten [nx]int64 // UnixNano of the first completed rewrite, 0 = none
+	var claimed [nx]int32
 	var wg sync.WaitGroup
 	for ci, ops := range c.Clients {
 		wg.Add(1)
@@ -177,7 +188,18 @@ func runC12Exp(c c12ExpCase) *vlib.Outcome {
 					case "getDep":
 						seenGet("dep", "dep")
 					case "rewriteF3":
-						k := (n + ci) % nx
+						// every item is rewritten at most once (a second
+						// rewrite would heal a lost one)
+						k := -1
+						for j := 0; j < nx; j++ {
+							if atomic.CompareAndSwapInt32(&claimed[(n+ci+j)%nx], 0, 1) {
+								k = (n + ci + j) % nx
+								break
+							}
+						}
+						if k < 0 {
+							break
+						}
 						if _, err := loc.AddFact(locCtx(loc), fmt.Sprintf("x%d", k), core.Map{"v": "three2"}); err != nil {
 							fail("WRITE_ERROR", "client %d: rewriting x%d (without expiry) across its expiry failed with %v", ci, k, err)
 						} else {
